@@ -52,6 +52,7 @@ theorem namesFor_safe {src : NameSource} (hs : src.safe = true) (h : Hier) (t : 
         simp [namesFor, hc]
       rw [e]; exact ⟨rfl, tablesOK_upd ht c⟩
   | inheritedTable => cases hs
+  | walkFiltered => cases hs
   | unknown => cases hs
 
 theorem upd_same {α : Type} (f : Nat → α) (i : Nat) (v : α) : upd f i v i = v := by simp [upd]
